@@ -22,7 +22,7 @@ CURVES = {
         b=0x0051953eb9618e1c9a1f929a21a0b68540eea2da725b99b315f3b8b489918ef109e156193951ec7e937b1652c0bd3bb1bf073573df883d2c34f1ef451fd46b503f00,
         gx=0x00c6858e06b70404e9cd9e3ecb662395b4429c648139053fb521f828af606b4d3dbaa14b5e77efe75928fe1dc127a2ffa8de3348b3c1856a429bf97e7e31c2e5bd66,
         gy=0x011839296a789a3bc0045c8a5fb42c7d1bd998f54449579b446817afbd17273e662c97ee72995ef42640c550b9013fad0761353c7086a272c24088be94769fd16650,
-        n=0x01fffffffffffffffffffffffffffffffffffffffffffffffffffffffffffffffffffa51868783bf2f966b7fcc0148f709a5d03bb5c9b8899c47aebb6fb71e91386409, len=66),
+        n=0x01fffffffffffffffffffffffffffffffffffffffffffffffffffffffffffffffffa51868783bf2f966b7fcc0148f709a5d03bb5c9b8899c47aebb6fb71e91386409, len=66),
     "secp256k1": dict(
         p=2 ** 256 - 2 ** 32 - 977, a=0, b=7,
         gx=0x79be667ef9dcbbac55a06295ce870b07029bfcdb2dce28d959f2815b16f81798,
@@ -105,3 +105,23 @@ def valid_key(jwk):
         if not (1 <= d < c["n"]) or mul(c, d, (c["gx"], c["gy"])) != (x, y):
             return False
     return True
+
+
+def ecdsa_sign(jwk, digest, k):
+    """ECDSA (FIPS 186-4) with the given nonce over an already computed digest; returns r || s, each as wide as the
+    curve of the key (the JWS encoding)"""
+    c = CURVES[jwk["crv"]]
+    n = c["n"]
+    z = int.from_bytes(digest, "big")
+    extra = len(digest) * 8 - n.bit_length()
+    if extra > 0:
+        z >>= extra
+    k = k % (n - 1) + 1
+    r = mul(c, k, (c["gx"], c["gy"]))[0] % n
+    s_ = pow(k, -1, n) * (z + r * scalar(jwk)) % n
+    assert r and s_
+    return r.to_bytes(c["len"], "big") + s_.to_bytes(c["len"], "big")
+
+
+for _c in CURVES.values():
+    assert mul(_c, _c["n"], (_c["gx"], _c["gy"])) is None and on_curve(_c, (_c["gx"], _c["gy"]))
